@@ -498,3 +498,98 @@ pub fn shuffle_history(start: &Pos, target: usize) -> (Vec<RMove>, Pos) {
     }
     (ms, pos)
 }
+
+/// A pair of look-alike positions for one session: `with` has a castling right (castling is
+/// legal now) or an ep square (the capture is legal now) that `without` lacks; `needs` is the
+/// move that exists only because of it. Same placement, same side to move.
+pub fn rights_twin(rng: &mut Rng) -> Option<(Pos, Pos, RMove)> {
+    if rng.chance(1, 2) {
+        let with = ep_capture_position(rng)?;
+        let needs = with.legal_moves().into_iter().find(|m| m.flags & F_EP != 0)?;
+        let mut without = with.clone();
+        without.ep = None;
+        if without.is_valid() {
+            return Some((without, with, needs));
+        }
+        return None;
+    }
+    for _ in 0..20 {
+        let plies = 8 + rng.usize_below(40);
+        let (_, ps) = playout(rng, &Pos::startpos(), plies, 2);
+        let c: Vec<&Pos> = ps.iter().filter(|p| p.legal_moves().iter().any(|m| m.flags & F_CASTLE != 0)).collect();
+        if c.is_empty() {
+            continue;
+        }
+        let with = (*rng.pick(&c)).clone();
+        let cs: Vec<RMove> = with.legal_moves().into_iter().filter(|m| m.flags & F_CASTLE != 0).collect();
+        let needs = rng.pick(&cs).clone();
+        let mut without = with.clone();
+        if rng.chance(1, 2) {
+            without.castle = [false; 4];
+        } else {
+            // only the right that the move needs
+            let king_side = file_of(needs.to) == 6;
+            let i = if with.white_to_move { 0 } else { 2 } + if king_side { 0 } else { 1 };
+            without.castle[i] = false;
+        }
+        if without.is_valid() {
+            return Some((without, with, needs));
+        }
+    }
+    None
+}
+
+/// A position in which the side to move can capture an unmoved enemy rook on its home corner
+/// WITH THE KING while the opponent still holds the castling right of that wing (and, usually,
+/// of the other wing too); returns the position and the capturing move.
+pub fn king_takes_corner_rook(rng: &mut Rng) -> Option<(Pos, RMove)> {
+    for _ in 0..50 {
+        let white_captures = rng.chance(1, 2);
+        // the victim's side: king and rooks on their home squares
+        let (vk, vr_a, vr_h, home_rank, pawn_dir): (u8, u8, u8, i8, i8) = if white_captures { (sq(4, 7), sq(0, 7), sq(7, 7), 7, -1) } else { (sq(4, 0), sq(0, 0), sq(7, 0), 0, 1) };
+        let vc = if white_captures { BLACK } else { 0 };
+        let ac = if white_captures { 0 } else { BLACK };
+        let mut p = Pos { sq: [EMPTY; 64], white_to_move: white_captures, castle: [false; 4], ep: None, halfmove: rng.range(0, 30) as u32, fullmove: rng.range(20, 90) as u32 };
+        p.sq[vk as usize] = KING | vc;
+        let king_side = rng.chance(1, 2);
+        let both = rng.chance(2, 3);
+        let ci = if white_captures { 2 } else { 0 };
+        if king_side || both {
+            p.sq[vr_h as usize] = ROOK | vc;
+            p.castle[ci] = true;
+        }
+        if !king_side || both {
+            p.sq[vr_a as usize] = ROOK | vc;
+            p.castle[ci + 1] = true;
+        }
+        // the capturing king diagonally in front of the corner (g7/b7 resp. g2/b2)
+        let kf = if king_side { 6 } else { 1 };
+        let ks = sq(kf, home_rank + pawn_dir);
+        p.sq[ks as usize] = KING | ac;
+        // a few other men anywhere, kept if the position stays valid
+        for _ in 0..rng.range(0, 6) {
+            let s = rng.below(64) as u8;
+            if p.sq[s as usize] != EMPTY {
+                continue;
+            }
+            let k = *rng.pick(&[PAWN, PAWN, PAWN, KNIGHT, BISHOP, ROOK]);
+            if k == PAWN && (rank_of(s) == 0 || rank_of(s) == 7) {
+                continue;
+            }
+            let c = if rng.chance(1, 2) { 0 } else { BLACK };
+            let old = p.clone();
+            p.sq[s as usize] = k | c;
+            if !p.is_valid() {
+                p = old;
+            }
+        }
+        if !p.is_valid() {
+            continue;
+        }
+        let corner = if king_side { vr_h } else { vr_a };
+        if let Some(m) = p.legal_moves().into_iter().find(|m| m.from == ks && m.to == corner) {
+            return Some((p, m));
+        }
+    }
+    None
+}
